@@ -45,7 +45,7 @@ FIELDS = ['local_path', 'abort_reason', 'fail_reason', 'start_time', 'complete_t
 
 
 def cases(tier: str, seed: int) -> list[dict]:
-    n = 1500 if tier == 'quick' else 30000
+    n = 1500 if tier == 'quick' else 100000
     return [{'seed': seed, 'n': i} for i in range(n)]
 
 
